@@ -135,6 +135,53 @@ def pcoRtOp : Handler
     | none => badOp
   | _ => badOp
 
+/-! `pcoadd`: the convenience constructors of `ProtocolConfigurationOptions` (ProtocolConfigurationOptions.go `Add…`).
+    Container identifiers from TS 24.008 table 10.5.154: 0003H DNS Server IPv6 Address (Request), 000AH IP address allocation
+    via NAS signalling, 000DH DNS Server IPv4 Address (Request), 0010H IPv4 Link MTU. -/
+
+/-- `net.IP.To4()`: 4 octets as they are, 16 octets with the IPv4-mapped prefix give the last four -/
+def ipTo4 (b : Bytes) : Option Bytes :=
+  if b.length == 4 then some b
+  else if b.length == 16 && b.take 10 == List.replicate 10 0 && (b.drop 10).take 2 == [0xff, 0xff] then some (b.drop 12)
+  else none
+
+/-- `net.IP.To16()` is non-nil exactly for 4 and 16 octets -/
+def ipIs16 (b : Bytes) : Bool := b.length == 4 || b.length == 16
+
+/-- one constructor call: the unit appended, or `none` when the call returns an error (nothing appended) -/
+def pcoAddStep (st : String) : Option (Option PcoUnit) :=
+  if st = "r4" then some (some ⟨0x000d, 0, []⟩)
+  else if st = "r6" then some (some ⟨0x0003, 0, []⟩)
+  else if st = "ra" then some (some ⟨0x000a, 0, []⟩)
+  else
+    match st.splitOn "." with
+    | ["d4", h] =>
+      (hexArg h).map fun ip =>
+        match ipTo4 ip with
+        | some v4 => some ⟨0x000d, 4, v4⟩
+        | none => none
+    | ["d6", h] =>
+      -- `dnsIP.To16() == nil` or `len(dnsIP) != 16`: only a 16-octet address is taken (an IPv4-mapped one included)
+      (hexArg h).map fun ip => if ipIs16 ip && ip.length == 16 then some ⟨0x0003, 16, ip⟩ else none
+    | ["mtu", n] =>
+      match n.toNat? with
+      | some v => if v < 65536 then some (some ⟨0x0010, 2, u16BE (UInt16.ofNat v)⟩) else none
+      | none => none
+    | _ => none
+
+def pcoAddOp : Handler
+  | [steps] =>
+    match (steps.splitOn ",").mapM pcoAddStep with
+    | none => badOp
+    | some rs =>
+      let rec go (k : Nat) (acc : List PcoUnit) : List (Option PcoUnit) → String
+        | [] => "ok " ++ fmtUnits acc ++ " " ++ toHex (pcoMarshal acc)
+        | some u :: rest => go (k + 1) (acc ++ [u]) rest
+        | none :: _ => s!"err {k} " ++ fmtUnits acc
+      let r := go 0 [] rs
+      (r, r)
+  | _ => badOp
+
 /-! transport layer address. The specification's domain: the IPv4 slot holds the text of an IPv4 address or is
     empty, the IPv6 slot the text of an IPv6 address (not an IPv4-mapped one) or is empty, not both empty. -/
 def slot4 (s : Bytes) : Option (Option Bytes) :=
@@ -252,6 +299,7 @@ def convHandlers : List (String × Handler) := [
   ("pcomar", pcoMarOp),
   ("pcounm", pcoUnmOp),
   ("pcort", pcoRtOp),
+  ("pcoadd", pcoAddOp),
   ("ip2ngap", ip2ngapOp),
   ("ngap2ip", ngap2ipOp),
   ("iprt", iprtOp),
